@@ -1,12 +1,19 @@
-"""C09 — loading translations never panics or hangs (string-level parser part; pipeline parts are added
-by the sections below as they are built).
-Theorems: coq/theories/Props/C09.v.  Correspondence: h_parser (ParsedValue::new under catch_unwind)."""
+"""C09 — loading translations never panics or hangs.
+Section 1 (string level): Coq totality theorem for ParsedValue::new + differential correspondence (h_parser, catch_unwind).
+Section 2 (pipeline): the rest of the loader (ranges, plurals, merge, foreign-key resolution, configuration), the build-script
+API and the code generator are NOT modelled in Coq; they are covered by correspondence + fault enumeration: a project-level
+malformed stream run through parse_locales (h_order `total`), leptos_i18n_build (h_total) and the in-process code generator,
+every stage under catch_unwind, stack-depth probes in child processes.
+Theorems: coq/theories/Props/C09.v."""
 import json
+import os
+import re
+import subprocess
 
 from vlib import core
-from checks import parsegen, parse_common
+from checks import parsegen, parse_common, pipeline_gen
 
-THEOREMS = ["C09_parse_total", "C09_scan_boundaries", "C09_parse_old_refuted", "C09_parse_fixed_witness"]
+THEOREMS = ["C09_parse_total", "C09_scan_boundaries", "C09_parse_old_refuted", "C09_parse_fixed_witness", "C09_range_count_total"]
 PROPS = "theories/Props/C09.v"
 REGISTRY = {
     "level": "proof",
@@ -14,13 +21,19 @@ REGISTRY = {
     "text": "C09_parse_total: for EVERY string ParsedValue::new (model) returns Ok/Err, never panics (every recorded slice offset is a "
             "character boundary: C09_scan_boundaries) and needs at most length+2 nested calls. The model is tied to /repo by running the "
             "real parser under catch_unwind on a malformed stream (grammar-aware mutations, token soups, foreign-key argument variants, "
-            "multibyte characters next to delimiters) and comparing result classes. Partial: ranges/plurals/merge/resolution/codegen totality "
-            "are being added; stack depth and wall-clock are runtime behaviour (the theorem bounds the recursion depth).",
+            "multibyte characters next to delimiters) and comparing result classes. PIPELINE (not proved, correspondence + fault "
+            "enumeration only): whole malformed projects (bad configs, empty/mistyped files, NaN/inf/overflowing range bounds in every "
+            "range syntax, literal counts missing every branch, $t in plural forms and range branches, cycles, plural groups with "
+            "non-identifier base keys or null forms, dashed keys in interpolations, kind mismatches, duplicate keys, deep nesting) are "
+            "run through parse_locales, TranslationsInfos::parse_at_dir/get_translations/write_to_dir/get_icu_keys and the macro crate's "
+            "code generator, each stage under catch_unwind: every stage must end Ok or with a descriptive Err; nested-tag / "
+            "interpolation / foreign-key-chain depth probes run in child processes under the 8 MiB main-thread stack. Stack depth and "
+            "wall-clock are runtime behaviour (the theorem bounds the recursion depth of the string parser only).",
     "design_ref": "DESIGN.md §5 C09",
     "note": "Trusted: Coq kernel + vm_compute; model tied by correspondence; syn::Ident and serde_json are oracles assumed not to panic; "
             "Python generator; h_parser harness. No axioms.",
     "engine": "coq",
-    "packages": [("h_parser",)],
+    "packages": [("h_parser",), ("h_order", ("json",), "target_order_json"), ("h_total",)],
 }
 
 
@@ -69,8 +82,10 @@ def run(ctx):
         k = "%s:%s" % (m["kind"], m["impl"].split(" ")[0].strip("()") + (m["impl"].split(" ")[1].strip("()") if m["impl"].startswith("(Err") else ""))
         kinds[k] = kinds.get(k, 0) + 1
     distinct = len(set(m["input"] for m in meta if len(m["input"]) > 3 and m["kind"] != "corpus"))
+    pipe = pipeline(ctx)
     core.write_evidence(ctx, {
-        "evaluations": len(meta), "distinct_nontrivial": distinct,
+        "evaluations": len(meta) + pipe["stage_runs"], "distinct_nontrivial": distinct + pipe["distinct_projects"],
+        "pipeline": pipe,
         "rule": "strings printed from generated source ASTs (valid stream) + grammar-aware mutations, token soups, foreign-key "
                 "argument variants and invalid names (malformed stream), corpus of earlier failures first; non-trivial = longer than 3 "
                 "characters, distinct by string",
@@ -80,7 +95,13 @@ def run(ctx):
     }, assumptions=[
         "serde_json (argument objects) and syn::Ident (identifier check) are oracles of the model; the correspondence uses "
         "an ASCII-exact identifier check and a JSON sub-grammar reader and skips inputs outside them (counted as unmodelled)",
-        "stack depth and wall-clock are runtime behaviour: the theorem bounds the recursion by the input length, it cannot exhibit an overflow"])
+        "stack depth and wall-clock are runtime behaviour: the theorem bounds the recursion by the input length, it cannot exhibit an overflow",
+        "pipeline section: no Coq model of ranges/plurals/merge/resolution/config/codegen panic sites; what is claimed is that the "
+        "enumerated fault classes and the random malformed stream end Ok/Err in every stage (catch_unwind), nothing more",
+        "the code generator is the macro crate's source compiled into h_order by #[path] (parser with the `quote` feature, as in the "
+        "macro); the build-script side links leptos_i18n_build as a build.rs does (parser without `quote`, skip_icu_cfg = true)",
+        "harness crates are built with opt-level 1 for dependencies: real proc-macro/build-script builds use opt-level 0, whose larger "
+        "frames overflow the stack earlier than the measured thresholds"])
 
 
 def replay(ctx, path):
@@ -93,3 +114,214 @@ def replay(ctx, path):
         print("model:", parse_common.show_model(ctx, s))
         print("check_C09 code:", codes[0])
     return 0
+
+
+# ====================================================================== section 2: pipeline (correspondence + fault enumeration)
+
+PLURAL_NULL = re.compile(r'_(zero|one|two|few|many|other)":\s*null')
+# id, stage(s), panic-message pattern, predicate on the (shrunk) project's files
+PIPELINE_CLASSES = [
+    ("C09-plural-base-key-not-identifier", re.compile(r"merge_plurals_1"), None),
+    ("C09-foreign-key-in-plural-form", re.compile(r"resolve_foreign_keys_1"), None),
+    ("C09-nonfinite-range-bounds", re.compile(r"is_finite"), None),
+    ("C09-dashed-key-builder-ident", re.compile(r"_builder\\?\" is not a valid Ident"), None),
+    ("C09-typed-range-without-branch", re.compile(r"0 locales \?"), None),
+    ("C09-null-plural-form", re.compile(r"defaulted value should never"), lambda files: any(PLURAL_NULL.search(t or "") for t in files.values())),
+    ("C09-null-range-value", re.compile(r"defaulted value should never"), lambda files: any("[null" in re.sub(r"\s", "", t or "") for t in files.values())),
+]
+CONFIG_ERRORS = {"ConfigFileDeser", "ConfigNotPresent", "DuplicateLocalesInConfig", "DuplicateNamespacesInConfig", "ManifestNotFound",
+                 "CargoDirEnvNotPresent", "MissingTranslationsURI", "NoFileFormats", "MultipleFilesFormats"}
+LOCATION = re.compile(r'\$DIR|locale \\?"|key \\?"|at key')
+
+
+def classify_panic(msg, files):
+    for cid, pat, pred in PIPELINE_CLASSES:
+        if pat.search(msg) and (pred is None or pred(files)):
+            return cid
+    return None
+
+
+def run_batch(exe, args, dirs, timeout=900):
+    """one process for many project directories; if the process dies (abort / stack overflow) the culprit is recorded and the
+    rest is run in a new process.  -> per directory: list of output lines, or ["CRASH <signal>"] / ["TIMEOUT"]"""
+    res = {}
+    todo = list(dirs)
+    while todo:
+        try:
+            p = subprocess.run([exe] + args, input="".join(d + "\n" for d in todo), capture_output=True, text=True, timeout=timeout)
+            out, rc = p.stdout, p.returncode
+        except subprocess.TimeoutExpired as t:
+            out, rc = (t.stdout.decode() if isinstance(t.stdout, bytes) else (t.stdout or "")), "timeout"
+        cur, done = [], 0
+        for l in out.splitlines():
+            if l.startswith("END\t"):
+                res[todo[done]] = cur
+                cur, done = [], done + 1
+            else:
+                cur.append(l)
+        if done == len(todo):
+            break
+        res[todo[done]] = cur + ["X\t%s" % ("TIMEOUT" if rc == "timeout" else "CRASH\texit status %s" % rc)]
+        todo = todo[done + 1:]
+    return [res[d] for d in dirs]
+
+
+def stage_results(lines):
+    """-> {stage letter: (class, variant-or-message, text)}"""
+    r = {}
+    for l in lines:
+        f = l.split("\t")
+        if f[0] in "PGBTILX" and len(f) >= 2:
+            r[f[0]] = (f[1], f[2] if len(f) > 2 else "", f[3] if len(f) > 3 else "")
+    return r
+
+
+def pipeline_exes(ctx):
+    macro = os.path.join(core.cargo_build("h_order", features=["json"], target_sub="target_order_json"), "h_order")
+    build = os.path.join(core.cargo_build("h_total"), "h_total")
+    return macro, build
+
+
+def run_projects(root, macro, build, projs, tag):
+    dirs = []
+    for i, p in enumerate(projs):
+        d = os.path.join(root, "%s%d" % (tag, i))
+        pipeline_gen.write(d, p)
+        dirs.append(d)
+    m = run_batch(macro, ["total"], dirs)
+    b = run_batch(build, [], dirs)
+    return [dict(stage_results(x), **stage_results(y)) for x, y in zip(m, b)]
+
+
+def failures_of(st, files):
+    """-> list of (kind, stage, class id or None, message)"""
+    out = []
+    for stage, (cls, a, b) in st.items():
+        if cls == "PANIC":
+            out.append(("panic", stage, classify_panic(a, files), a))
+        elif stage == "X":
+            out.append(("crash" if cls == "CRASH" else "hang", stage, None, a))
+        elif cls == "err" and stage in "PB":
+            if not b.strip():
+                out.append(("empty-error", stage, None, a))
+            elif a not in CONFIG_ERRORS and not LOCATION.search(b) and '"' not in b:
+                out.append(("error-without-location", stage, None, a + ": " + b))
+    return out
+
+
+def depth_probe(exe, root, kind, n, timeout=300):
+    d = os.path.join(root, "depth")
+    pipeline_gen.write(d, pipeline_gen.depth_project(kind, n))
+    try:
+        p = subprocess.run([exe, "depth"], input=d + "\n", capture_output=True, text=True, timeout=timeout)
+        return p.returncode
+    except subprocess.TimeoutExpired:
+        return "timeout"
+
+
+DEPTH_KINDS = ["nested-tags", "interpolations", "sibling-tags", "fk-chain"]
+DEPTH_PLAUSIBLE = 500          # a single translation with 500 tags / variables (about 5 KB) is already far beyond real files
+
+
+def pipeline(ctx):
+    macro, build = pipeline_exes(ctx)
+    root = os.path.join(ctx.work, "pipeline")
+    os.makedirs(root, exist_ok=True)
+    named = pipeline_gen.named_cases(ctx.rng)
+    projs = named + [pipeline_gen.random_case(ctx.rng) for _ in range(700 if ctx.quick else 8000)]
+    results = run_projects(root, macro, build, projs, "p")
+    counts, fails = {}, []
+    for p, st in zip(projs, results):
+        for stage, (cls, a, _) in st.items():
+            k = "%s:%s%s" % (stage, cls, (":" + a) if cls == "err" else "")
+            counts[k] = counts.get(k, 0) + 1
+        for f in failures_of(st, p["files"]):
+            fails.append((p, f))
+    known = {f.get("id"): f for f in core.load_known("C09") if f.get("status") == "known"}
+    by_class, unknown = {}, []
+    for p, (kind, stage, cid, msg) in fails:
+        if kind == "panic" and cid is not None:
+            by_class.setdefault(cid, []).append((p, stage, msg))
+        else:
+            unknown.append((p, kind, stage, msg))
+    known_hit, reported = {}, []
+    for cid, lst in sorted(by_class.items()):
+        if cid in known:
+            known_hit[cid] = len(lst)
+            core.known_finding(ctx, known[cid], known[cid].get("line", cid))
+        else:
+            unknown.append((min((x[0] for x in lst), key=pipeline_gen.size), "panic", lst[0][1], lst[0][2]))
+    if unknown:
+        unknown.sort(key=lambda u: pipeline_gen.size(u[0]))
+        # one report per distinct (kind, class or message head), smallest project first, shrunk
+        seen = set()
+        for p, kind, stage, msg in unknown:
+            cid = classify_panic(msg, p["files"]) if kind == "panic" else None
+            key = (kind, cid or msg[:60])
+            if key in seen or len(seen) >= 8:
+                continue
+            seen.add(key)
+
+            def still(q, kind=kind, stage=stage, cid=cid, msg=msg):
+                st = run_projects(root, macro, build, [q], "shr")[0]
+                for k2, s2, c2, m2 in failures_of(st, q["files"]):
+                    if k2 == kind and s2 == stage and (c2 == cid if cid else m2[:40] == msg[:40]):
+                        return True
+                return False
+            small = pipeline_gen.shrink(p, still, limit=150 if ctx.quick else 400)
+            reported.append({"kind": kind, "stage": {"P": "parse_locales", "G": "code generator", "B": "TranslationsInfos::parse_at_dir",
+                                                     "T": "get_translations/write_to_dir", "I": "get_icu_keys", "L": "get_locales_langids",
+                                                     "X": "process"}[stage],
+                             "class": cid, "message": msg, "config": small["cargo"].split("[package.metadata.leptos-i18n]")[-1].strip(),
+                             "files": small["files"], "generated_as": p["cls"]})
+        core.violation(ctx, "pipeline_panic", {
+            "failing_input": reported[0], "more": reported[1:],
+            "explanation": "a stage of the loading pipeline did not end with Ok or a descriptive Err on this project "
+                           "(panic caught by catch_unwind / process crash / timeout / error text without any location)",
+            "count": len(unknown)})
+    # stack-depth probes in child processes
+    depth = {}
+    for kind in DEPTH_KINDS:
+        for exe, name in ((macro, "macro"), (build, "build")):
+            rc = depth_probe(exe, root, kind, DEPTH_PLAUSIBLE)
+            depth["%s/%s/%d" % (name, kind, DEPTH_PLAUSIBLE)] = rc
+            if rc != 0:
+                core.violation(ctx, "pipeline_stack", {
+                    "failing_input": {"kind": kind, "elements_in_one_value": DEPTH_PLAUSIBLE, "side": name, "exit_status": rc},
+                    "explanation": "loading a project whose single value holds %d %s ended abnormally in a child process "
+                                   "(stack overflow aborts)" % (DEPTH_PLAUSIBLE, kind)})
+            if not ctx.quick and rc == 0:
+                lo, hi = DEPTH_PLAUSIBLE, 40000
+                if depth_probe(exe, root, kind, hi) == 0:
+                    depth["%s/%s/threshold" % (name, kind)] = ">%d" % hi
+                else:
+                    while hi - lo > max(50, lo // 20):
+                        mid = (lo + hi) // 2
+                        if depth_probe(exe, root, kind, mid) == 0:
+                            lo = mid
+                        else:
+                            hi = mid
+                    depth["%s/%s/threshold" % (name, kind)] = "ok at %d, abnormal exit at %d (value of about %d bytes)" % (
+                        lo, hi, len(next(iter(pipeline_gen.depth_project(kind, hi)["files"].values()))))
+    stage_runs = sum(len(st) for st in results)
+    samples = []
+    for i in (0, 5, 8, len(named) + 1, len(named) + 2):
+        if i < len(projs):
+            samples.append({"class": projs[i]["cls"], "files": {k: (v or "")[:200] for k, v in projs[i]["files"].items()},
+                            "stages": {k: list(v[:2]) for k, v in results[i].items()}})
+    cls_hist = {}
+    for p in projs:
+        c = p["cls"].split(":")[0]
+        cls_hist[c] = cls_hist.get(c, 0) + 1
+    return {
+        "level": "correspondence + fault enumeration (no Coq model of these stages)",
+        "projects": len(projs), "named_fault_cases": len(named), "stage_runs": stage_runs,
+        "distinct_projects": len(set(json.dumps(p["files"], sort_keys=True) + p["cargo"] for p in projs)),
+        "stages": "P parse_locales(false) | G load_locales() code generator | B TranslationsInfos::parse_at_dir | T get_translations().write_to_dir "
+                  "| I get_icu_keys | L get_locales_langids/get_locales/get_namespaces",
+        "counts_per_stage_and_class": dict(sorted(counts.items())),
+        "fault_classes_generated": cls_hist,
+        "panics_by_known_class": {k: len(v) for k, v in by_class.items()}, "known_findings_hit": known_hit,
+        "unclassified_failures": len([u for u in unknown]), "reported": reported[:3],
+        "depth_probes_child_process_8MiB_stack": depth, "samples": samples,
+    }
